@@ -168,3 +168,39 @@ def rule_signmag_locals(prog: Program, modules: Optional[Set[str]] = None) -> Li
             out.append(Instance("R-SIGNMAG", f"{fi.qual}#res-magnitude-local:{short(n, 40)}", BAD,
                                 f"`{short(n, 60)}` aggregates values built from signed resolution components ({', '.join(sorted(signed))}) without abs(): a sign fix written for the north-up case (`-ny*ry`) turns negative for a raster mirrored the other way, the 'largest' span is then negative", fi.where(n)))
     return out
+
+
+def rule_reciprocal(prog: Program, modules: Optional[Set[str]] = None) -> List[Instance]:
+    """R-RECIP. `floor(q * inv)` with `inv = 1.0 / size` is not `floor(q / size)`: for many sizes `k * size * (1 / size)` is one
+    ulp below k, so a value exactly on a bin / pixel edge lands in the previous bin. A directional rounding (floor, ceil,
+    int, trunc) must see the quotient itself, not a product with a stored reciprocal."""
+    out: List[Instance] = []
+
+    def is_recip(v: ast.AST) -> bool:
+        return isinstance(v, ast.BinOp) and isinstance(v.op, ast.Div) and isinstance(v.left, ast.Constant) and v.left.value in (1, 1.0)
+
+    for mod in sorted(modules or prog.modules):
+        if mod not in prog.modules:
+            continue
+        fns = prog.all_functions({mod})
+        recip_attrs: Set[str] = set()
+        for fi in fns:
+            for n in walk_own(fi.node):
+                if isinstance(n, ast.Assign) and is_recip(n.value):
+                    for t in n.targets:
+                        if isinstance(t, ast.Attribute):
+                            recip_attrs.add(t.attr)
+        for fi in fns:
+            recip_names = {t.id for n in walk_own(fi.node) if isinstance(n, ast.Assign) and is_recip(n.value) for t in n.targets if isinstance(t, ast.Name)}
+            if not recip_names and not recip_attrs:
+                continue
+            for n in walk_own(fi.node):
+                if not (isinstance(n, ast.Call) and call_name(n) in ("floor", "ceil", "int", "trunc") and n.args):
+                    continue
+                for m in ast.walk(n.args[0]):
+                    if isinstance(m, ast.BinOp) and isinstance(m.op, ast.Mult):
+                        for side in (m.left, m.right):
+                            if (isinstance(side, ast.Name) and side.id in recip_names) or (isinstance(side, ast.Attribute) and side.attr in recip_attrs):
+                                out.append(Instance("R-RECIP", f"{fi.qual}#recip:{short(n, 40)}", BAD,
+                                                    f"`{short(n, 60)}` rounds a product with the stored reciprocal `{short(side)}`: k*size*(1/size) can be one ulp below k (size 49, 98, 150 ...), a point exactly on an edge is assigned to the previous bin; divide instead", fi.where(n)))
+    return out
